@@ -74,7 +74,7 @@ def truncation_oracle(ctx):
 
 
 def campaign_truncation(ctx):
-    ctx.search(V.cases(frag=FRAG, depth=3).map(list), truncation_oracle(ctx), ctx.budget(4000, 200000))
+    ctx.search(V.cases(frag=FRAG, depth=3).map(list), truncation_oracle(ctx), ctx.budget(8000, 200000))
 campaign_truncation.shards = (4, 16)
 
 
@@ -109,7 +109,7 @@ def mutated_cases(draw):
 
 
 def campaign_mutated(ctx):
-    ctx.search(mutated_cases(), mutated_oracle(ctx), ctx.budget(5000, 200000))
+    ctx.search(mutated_cases(), mutated_oracle(ctx), ctx.budget(10000, 200000))
 campaign_mutated.shards = (4, 16)
 
 
@@ -157,7 +157,7 @@ def invalid_cases_frag():
 
 
 def campaign_build(ctx):
-    ctx.search(build_cases(), build_oracle(ctx), ctx.budget(5000, 200000))
+    ctx.search(build_cases(), build_oracle(ctx), ctx.budget(10000, 200000))
 campaign_build.shards = (4, 16)
 
 
@@ -301,7 +301,7 @@ def sizeof_oracle(ctx):
 
 def campaign_sizeof(ctx):
     strat = V.spec_and_params(frag=FRAG | {"grange", "optional", "select", "stopif"}, depth=3).map(list)
-    ctx.search(strat, sizeof_oracle(ctx), ctx.budget(5000, 200000))
+    ctx.search(strat, sizeof_oracle(ctx), ctx.budget(10000, 200000))
 campaign_sizeof.shards = (2, 8)
 
 
